@@ -1,7 +1,9 @@
 import Driver.Sexp
 import Pcore.Model.ValueEq
 import Pcore.Model.ValueEqCache
-/-! Driver ops for C07: `eq x y`, `eq3 x y z`, `key x`, `get H k`, `unique xs` (value syntax in harness/c07). -/
+/-! Driver ops for C07: `eq x y`, `eq3 x y z`, `key x`, `get H k`, `unique xs`.  Value and type syntax: harness/c07/c07.go (first round),
+    kinds.go (uri ver vmin vr tn df par), objects.go (obj), typekinds.go (the type kinds of the extension round).  `get` is answered
+    through the index model (`Model/ValueEqCache.lean`), once before and once after forcing the index. -/
 namespace C07
 open Sx Pcore.ValueEq
 
